@@ -145,10 +145,12 @@ func newWorld(r *vk.Run, isVal bool, eq bool, init map[string]*tat) *world {
 	return newWorldTol(r, isVal, eq, 0, init)
 }
 
-func newWorldTol(r *vk.Run, isVal bool, eq bool, tol int32, init map[string]*tat) *world {
+func newWorldTol(r *vk.Run, isVal bool, eq bool, tol int32, init map[string]*tat, lowerIDs ...bool) *world {
 	w := &world{r: r, isVal: isVal, eq: eq, tol: tol, clock: &fclock{}, state: sm.State{}, times: map[string]bracket{}}
-	w.model = &sm.Model{Cfg: sm.Config{IsValue: isVal, NilWritable: true}, Type: info()}
-	opts := []resource.Option{resource.WithClock(w.clock)}
+	w.model = &sm.Model{Cfg: sm.Config{IsValue: isVal, NilWritable: true, LowerIDs: !isVal && len(lowerIDs) > 0 && lowerIDs[0]}, Type: info()}
+	// (with LowerIDs the collection folds the case of ids: callers may name an item in any spelling, events and the
+	// listing carry the canonical one)
+	opts := append(w.model.ResourceOptions(), resource.WithClock(w.clock))
 	if eq {
 		opts = append(opts, resource.WithEquivalence(resource.ComparerFunc(w.equiv)))
 	}
@@ -678,9 +680,13 @@ func runHistoryRandom(r *vk.Run, isVal, eq bool, init map[string]*tat, seq []opG
 	if eq && rng.Bool() {
 		tol = 1
 	}
-	w := newWorldTol(r, isVal, eq, tol, init)
+	foldCase := !isVal && rng.Chance(1, 3)
+	w := newWorldTol(r, isVal, eq, tol, init, foldCase)
 	defer w.close()
-	w.trace = append(w.trace, fmt.Sprintf("isValue=%v equivalence=%v tolerance=%d init=%s", isVal, eq, w.tol, w.state.Render()))
+	w.trace = append(w.trace, fmt.Sprintf("isValue=%v equivalence=%v tolerance=%d case-folding-ids=%v init=%s", isVal, eq, w.tol, foldCase, w.state.Render()))
+	if foldCase {
+		r.Count("histories-with-case-folding-ids", 1)
+	}
 	var names []string
 	for i, g := range seq {
 		if len(w.subs) < 4 && (i == 0 || rng.Chance(1, 4)) {
@@ -689,7 +695,11 @@ func runHistoryRandom(r *vk.Run, isVal, eq bool, init map[string]*tat, seq []opG
 			}
 		}
 		names = append(names, g.name)
-		if !w.write(g.mk(i)) {
+		op := g.mk(i)
+		if foldCase && rng.Bool() {
+			op.ID = strings.ToUpper(op.ID) // another spelling of the same item
+		}
+		if !w.write(op) {
 			break
 		}
 		if len(w.trace) > 40 {
